@@ -34,12 +34,18 @@ def shards(tier, seed):
 
 
 # ---------------------------------------------------------------------------
-def valid_packet(rng, n):
-    for _ in range(100):
+def valid_packet(rng, n, checksum=None):
+    """A valid packet whose bytes after the header do not contain the marker. checksum=0xAA forces the last byte
+    to be the first half of a marker (a receiver must not pair it with a following 0x55)."""
+    for _ in range(5000):
         src = rng.randrange(1, 250)
         data = bytes([n & 0xFF, rng.randrange(256), rng.randrange(0x7F), 0xFF, 0x7F, 0xFF, 0x7F, 0xFD])
         p = wire.usb_frame(wire.can_id(2, 127250, src, 255), data)
-        if b"\xaa\x55" not in p[2:] and p[-1] != 0xAA:
+        if b"\xaa\x55" in p[2:]:
+            continue
+        if checksum is None and p[-1] != 0xAA:
+            return p
+        if checksum is not None and p[-1] == checksum:
             return p
     raise RuntimeError("cannot build marker-free packet")
 
@@ -67,6 +73,10 @@ def noise(rng, n, kind):
             i = rng.randrange(0, len(b) - 1)
             b[i:i + 2] = b"\xaa\x55"
         return bytes(b)
+    if kind == "starts_with_55":
+        b = bytearray(noise(rng, max(n, 1), "marker_free"))
+        b[0] = 0x55                      # second half of a marker, but nothing in front of it belongs to this run
+        return bytes(b)
     raise ValueError(kind)
 
 
@@ -76,7 +86,12 @@ def build_stream(rng, n_segments, max_noise):
     while len(segs) < n_segments:
         r = rng.random()
         if r < 0.55:
-            segs.append(("V", valid_packet(rng, k)))
+            if rng.random() < 0.12:
+                # a packet ending in 0xAA directly followed by noise starting with 0x55
+                segs.append(("V", valid_packet(rng, k, checksum=0xAA)))
+                segs.append(("N:starts_with_55", noise(rng, rng.choice([1, 2, 5, 30, 100]), "starts_with_55")))
+            else:
+                segs.append(("V", valid_packet(rng, k)))
             k += 1
         elif r < 0.65:
             p = bytearray(valid_packet(rng, k))
@@ -109,25 +124,33 @@ def ground_truth(segs):
     required = []
     damaged = 0
     sync = True
+    consumed_prev = False      # the previous segment was a whole packet consumed in sync (its bytes are gone)
     pos = 0
     for kind, b in segs:
         end = pos + len(b)
         if kind == "V":
             if sync:
                 required.append(pos)
+                consumed_prev = True
+            else:
+                consumed_prev = False
             sync = True
         elif kind == "C":
             damaged += 1
             # full-length, marker-free body: consumed as one window when in sync, harmless noise otherwise
+            consumed_prev = sync
             if any(m in marks for m in range(pos + 1, end)):
                 sync = False
+                consumed_prev = False
         else:
             damaged += 1
-            # marker starting inside this region, or straddling its end, makes it harmful
-            harmful = any(pos <= m < end and not (m == end) for m in marks if pos - 1 <= m < end)
-            straddle_before = (pos - 1) in marks and pos - 1 >= 0 and stream[pos - 1] == 0xAA and kind != "V"
+            # a marker starting inside this region (or straddling its end) makes it harmful; a 0xAA that ended a
+            # packet consumed in sync cannot pair with this region's first byte
+            harmful = any(pos <= m < end for m in marks)
+            straddle_before = (pos - 1) in marks and not consumed_prev
             if kind == "T" or harmful or straddle_before:
                 sync = False
+            consumed_prev = False
         pos = end
     windows = set()
     for m in marks:
@@ -337,7 +360,9 @@ def run_shard(spec, acc):
     if spec["what"] == "allcuts":
         segs = [("V", valid_packet(rng, 1)), ("N:marker_free", noise(rng, 5, "marker_free")), ("V", valid_packet(rng, 2)),
                 ("T", valid_packet(rng, 3)[:9]), ("V", valid_packet(rng, 4)), ("V", valid_packet(rng, 5)),
-                ("N:half_marker_end", noise(rng, 3, "half_marker_end")), ("V", valid_packet(rng, 6))]
+                ("N:half_marker_end", noise(rng, 3, "half_marker_end")), ("V", valid_packet(rng, 6)),
+                ("V", valid_packet(rng, 7, checksum=0xAA)), ("N:starts_with_55", noise(rng, 4, "starts_with_55")),
+                ("V", valid_packet(rng, 8)), ("V", valid_packet(rng, 9))]
         stream, required, windows, damaged = ground_truth(segs)
         for c in range(1, len(stream)):
             sim, stats, samples = run_stream(stream, [c], 1)
